@@ -194,3 +194,16 @@ def _jd(o):
 
 def short_hash(obj):
     return hashlib.sha256(json.dumps(obj, sort_keys=True, default=_jd).encode()).hexdigest()[:12]
+
+
+def flagtype(rng, b):
+    """a boolean option as a user may hand it over: mostly the Python bool, sometimes numpy.bool_ (a value taken from a numpy /
+    pandas settings table) or 0 / 1 — the solution functions compare such flags with `== True` / `== False`, so the meaning is the
+    truth value"""
+    import numpy as _np
+    r = rng.random()
+    if r < 0.7:
+        return bool(b)
+    if r < 0.85:
+        return _np.bool_(b)
+    return int(bool(b))
